@@ -748,6 +748,8 @@ fn generate(rng: &mut Rng, tier: &str, w: &mut CaseWriter) {
     generate_part4(rng, tier, w);
     // deepening round 4 (appended last again)
     generate_part5(rng, tier, w);
+    // deepening round 8 (appended last again)
+    generate_part6(rng, tier, w);
 }
 
 fn main() {
